@@ -60,6 +60,10 @@ def macsecUnmodified (tci : Nat) : Bool := (tci / 4) % 4 = 0
 /-- `0 != tci_an & 0b10_0000` -/
 def macsecSciPresent (tci : Nat) : Bool := (tci / 32) % 2 = 1
 
+/-- `6 + if unmodified { 2 } else { 0 } + if sci present { 8 } else { 0 }` -/
+def macsecHeaderLen (tci : Nat) : Nat :=
+  6 + (if macsecUnmodified tci then 2 else 0) + (if macsecSciPresent tci then 8 else 0)
+
 /-- MacsecHeaderSlice::from_slice: returns the header length -/
 def macsecHeaderFromSlice (g : Mem) (o l : Nat) : Except PErr Nat :=
   if l < 6 then
@@ -69,7 +73,7 @@ def macsecHeaderFromSlice (g : Mem) (o l : Nat) : Except PErr Nat :=
     if (tci / 128) % 2 = 1 then .error .macsecVersion
     else if macsecUnmodified tci ∧ (g (o + 1)) % 64 = 1 then .error .macsecShortLen
     else
-      let req := 6 + (if macsecUnmodified tci then 2 else 0) + (if macsecSciPresent tci then 8 else 0)
+      let req := macsecHeaderLen tci
       if l < req then
         .error (.len { req := req, len := l, src := .slice, layer := .macsecHeader, off := 0 })
       else .ok req
